@@ -228,7 +228,7 @@ def c03(tier, seed):
 
 
 def c05(tier, seed):
-    return dict(runs=fb_plan(tier, seed, "h_sync", "cond", COND_STALLS, 30, 200),
+    return dict(runs=fb_plan(tier, seed, "h_sync", "cond", COND_STALLS, 30, 200, tsan=True),
                 rule=TRIAL_RULE + "Credit ledger under the user mutex: signal while a waiter is registered gives one credit, broadcast one per registered "
                 "waiter; every return from fiber_cond_wait must own the mutex and consume a credit; at the end credits==0 and nobody is blocked "
                 "(quiescence => lost signal). No predicate loops. distinct_nontrivial = distinct (waiters, signallers, waits, mode, window-hit) tuples.",
@@ -237,7 +237,11 @@ def c05(tier, seed):
 
 
 def c06(tier, seed):
-    return dict(runs=fb_plan(tier, seed, "h_sync", "sem", ["MAINT_PUBLISH", "MPMC_PUSH_MID", "WAIT_MPMC", "SWITCH_PRE", "SWITCH_POST", "SCHEDULED", "SEM_POST_MID"], 24, 150),
+    runs06 = fb_plan(tier, seed, "h_sync", "sem", ["MAINT_PUBLISH", "MPMC_PUSH_MID", "WAIT_MPMC", "SWITCH_PRE", "SWITCH_POST", "SCHEDULED", "SEM_POST_MID"], 24, 150, tsan=True)
+    for r in runs06:
+        if r.variant == "tsan":
+            r.args["mutexlike"] = 1
+    return dict(runs=runs06,
                 rule=TRIAL_RULE + "Initial values {0,1,2,7}; holder pattern (occupancy <= initial) or producer/consumer. Oracles: successes <= initial + posts "
                 "begun at every success, trywait never context-switches, final value == initial + posts - successes, stranded waiter at quiescence.",
                 min_events={"sem_wait_returned": 100, "sem_trywait_fail": 1, "sem_posts": 100},
@@ -245,7 +249,7 @@ def c06(tier, seed):
 
 
 def c07(tier, seed):
-    return dict(runs=fb_plan(tier, seed, "h_sync", "rwlock", RW_STALLS, 24, 150),
+    return dict(runs=fb_plan(tier, seed, "h_sync", "rwlock", RW_STALLS, 24, 150, tsan=True),
                 rule=TRIAL_RULE + "Oracles: writer alone (atomic occupancy of readers/writers on entry and exit), shared data unchanged during a read "
                 "section, try variants never context-switch, state word 0 at the end, stranded waiter at quiescence.",
                 min_events={"rw_read_sections_shared_with_other_readers": 10, "rw_write_sections": 50, "rw_trywr_fail": 1, "lib_wake_mpsc_spin_count": 1},
